@@ -38,10 +38,16 @@ type backendResp struct {
 	Split        int  // 0 one write, 1 per frame, 2 random pieces
 	WrongCT      string
 	Cut          int // >0: drop that many bytes from the end of the body
+	CutMode      int // 1: the last frame keeps only its envelope, 2: the cut falls inside the last frame's envelope
 	BareBody     int // variations of the body of a bare HTTP failure
 	DeclLower    bool   // declared trailer names in lower case
 	Junk         []byte // bytes after the end-of-stream frame, in the same write
+	cutOut       *int   // where script reports the cut it applied
 	BadEnd       int    // 1: end-of-stream frame that cannot be parsed, 2: flagged compressed but is not
+}
+
+func envelopedResp(b backendResp) bool {
+	return b.BareStatus == 0 && !(b.Target == vanguard.ProtocolConnect && !b.Streaming)
 }
 
 func (b backendResp) badEndEffective() bool {
@@ -299,6 +305,17 @@ func (b backendResp) script(r *rng, et *endTables) []action {
 	for _, f := range frames {
 		body = append(body, f...)
 	}
+	if b.CutMode > 0 && len(frames) > 0 && envelopedResp(b) {
+		if last := frames[len(frames)-1]; len(last) > 5 {
+			b.Cut = len(last) - 5
+			if b.CutMode == 2 {
+				b.Cut += 1 + len(last)%4
+			}
+		}
+	}
+	if b.cutOut != nil {
+		*b.cutOut = b.Cut
+	}
 	if b.Cut > 0 && b.Cut < len(body) {
 		body = body[:len(body)-b.Cut]
 		frames = [][]byte{body}
@@ -531,6 +548,9 @@ func genResp(r *rng, limits []uint32) *respCase {
 		tag += "+unknowncomp"
 	case 3:
 		b.Cut = 1 + r.intn(6)
+		if r.chance(1, 3) {
+			b.CutMode = 1 + r.intn(2)
+		}
 		tag += "+cut"
 	case 4:
 		b.Junk = pick(r, [][]byte{{0}, []byte("junk after the end"), {0, 0, 0, 0, 1, 'x'}})
@@ -560,15 +580,19 @@ func (rc *respCase) run(split int) (in L, out L, view clientView, res scenarioRe
 	cutEffective := 0
 	if b.Cut > 0 {
 		probe := b
-		probe.Cut = 0
+		probe.Cut, probe.CutMode = 0, 0
 		full := 0
 		for _, a := range probe.script(&rng{s: 1}, newEndTables()) {
 			if a.Op == "write" {
 				full += len(a.Data)
 			}
 		}
-		if b.Cut < full {
-			cutEffective = b.Cut
+		applied := 0
+		probe = b
+		probe.cutOut = &applied
+		probe.script(&rng{s: 1}, newEndTables())
+		if applied < full {
+			cutEffective = applied
 		}
 	}
 	script := b.script(r, et)
